@@ -25,6 +25,8 @@ pub enum OpWhat {
     Join,
     /// join future created, polled once and kept alive unresolved
     JoinStash,
+    /// join future created and dropped without a poll
+    JoinDiscard,
     Consume,
     ConsumeSync,
     Detach,
